@@ -498,6 +498,7 @@ pub struct Shared {
     pub store: Arc<TStore>,
     pub subscriptions: Mutex<HashMap<String, Arc<Mutex<Box<dyn Subscription>>>>>,
     pub iters: Mutex<HashMap<String, BoxIter>>,
+    pub signals: (Mutex<std::collections::HashSet<String>>, std::sync::Condvar),
 }
 
 impl Shared {
@@ -507,6 +508,7 @@ impl Shared {
             store,
             subscriptions: Mutex::new(HashMap::new()),
             iters: Mutex::new(HashMap::new()),
+            signals: (Mutex::new(Default::default()), std::sync::Condvar::new()),
         })
     }
 }
@@ -637,6 +639,18 @@ pub fn run_op(sh: &Arc<Shared>, o: &OpDesc) -> Value {
         }
         "add_mw" => {
             store.add_middleware(Arc::new(SMiddleware::new(&o.s, env)));
+            json!("ok")
+        }
+        "signal" => {
+            sh.signals.0.lock().unwrap().insert(o.s.clone());
+            sh.signals.1.notify_all();
+            json!("ok")
+        }
+        "wait" => {
+            let mut g = sh.signals.0.lock().unwrap();
+            while !g.contains(&o.s) {
+                g = sh.signals.1.wait(g).unwrap();
+            }
             json!("ok")
         }
         "task" => {
